@@ -120,6 +120,9 @@ class C11(Prop):
         "NV.C11.accepted_quiet_when_off",
         "NV.C11.judge_ok_implies_quiet_when_off",
         "NV.C11.no_beat_while_heart_beats_off",
+        "NV.C11.accepted_cg_clean",
+        "NV.C11.judge_ok_implies_cg_clean",
+        "NV.C11.no_command_giver_left_behind",
         "NV.C11.accepted_ctx_clean",
         "NV.C11.judge_ok_implies_ctx_clean",
         "NV.C11.context_clean_every_beat",
